@@ -222,6 +222,37 @@ def check_case(b, bp, ref, mi, tree, res: Result, w, rng):
                         res.violation("group-alters-known", ["group", ds[0].fi.cls_key() if ds[0].fi else "?", "known-field-changed"],
                                       f"{mi.full_name}: a proto2 group of unknown field {unknown_no} changed known fields: {ds[0].short()}; input {data.hex()[:200]}", ww)
 
+    # (4a) malformed content INSIDE a group is malformed input as well: field number 0, wire types 6/7, a group that is
+    # never closed or closed by another number, a record cut inside the group
+    if (only is None and w.get("tag") in ("empty", "maximal", "matrix")) or only == "badgroup":
+        unknown_no = max([f.number for f in mi.fields] + [0]) + 1
+        if unknown_no < 2**29 - 1:
+            st, en = spec.enc_tag(unknown_no, 3), spec.enc_tag(unknown_no, 4)
+            good = spec.enc_record(1, 0, 5)
+            bads = {
+                "field-0-varint": st + b"\x00\x05" + en,
+                "field-0-len": st + good + b"\x02\x01a" + en,
+                "wire-type-6": st + spec.enc_varint((1 << 3) | 6) + en,
+                "wire-type-7": st + good + spec.enc_varint((2 << 3) | 7) + en,
+                "never-closed": st + good,
+                "closed-by-other-number": st + good + spec.enc_tag(unknown_no + 1, 4),
+                "cut-inside": st + spec.enc_tag(1, 2) + b"\x05ab" ,
+                "nested-field-0": st + spec.enc_tag(unknown_no + 1, 3) + b"\x00\x01" + spec.enc_tag(unknown_no + 1, 4) + en,
+            }
+            for bi, (label, grp) in enumerate(bads.items()):
+                if only == "badgroup" and w.get("bad") != label:
+                    continue
+                for place in ("end", "start"):
+                    if label in ("never-closed", "cut-inside") and place == "start":
+                        continue  # what follows would be swallowed into the group: judged at the end only
+                    data = e0 + grp if place == "end" else grp + e0
+                    ww = dict(w, mal="badgroup", bad=label, place=place)
+                    res.note("bad_groups")
+                    out = judge_generic(data, "bad-group", ww)
+                    if out[0] == "ok":
+                        res.violation("malformed-group-accepted", [label, place, "accepted"],
+                                      f"{mi.full_name}: a group with malformed content ({label}) was accepted; input {data.hex()[:200]}", ww)
+
     # (4b) truncation inside records the schema does not decode: unknown numbers (every wire type) and known numbers
     # arriving with a non-fitting wire type -- a cut inside such a record must be rejected as well
     if only in (None, "cut-tail") and w.get("tag") in ("empty", "maximal", "matrix", None) or only == "cut-tail":
@@ -260,6 +291,17 @@ def check_case(b, bp, ref, mi, tree, res: Result, w, rng):
                     if out[0] == "ok":
                         res.violation("ragged-packed-accepted", [fi.cls_key(), f"extra{extra}", "accepted"],
                                       f"{mi.full_name}.{fi.name}: packed payload of {len(payload)} bytes (element width {wdt}) was accepted; input {data.hex()[:200]}", ww)
+            if (fi.label == "repeated" and (fi.kind in spec.VARINT_KINDS if hasattr(spec, "VARINT_KINDS") else fi.kind in
+                    ("int32", "int64", "uint32", "uint64", "sint32", "sint64", "bool", "enum")) and only in (None, "ragged")):
+                # a packed varint payload whose last element is cut (continuation byte, then nothing)
+                for payload in (b"\x80", b"\x01\x96", b"\x01\x02\xff\xff"):
+                    data = e0 + spec.enc_record(fi.number, 2, payload)
+                    ww = dict(w, mal="ragged", number=fi.number)
+                    res.note("ragged_packed_varint")
+                    out = judge_generic(data, "ragged-packed", ww)
+                    if out[0] == "ok":
+                        res.violation("ragged-packed-accepted", [fi.cls_key(), "cut-last-varint", "accepted"],
+                                      f"{mi.full_name}.{fi.name}: packed payload {payload.hex()} ends inside a varint and was accepted; input {data.hex()[:200]}", ww)
             if fi.kind == "string" and fi.label in ("singular", "optional", "oneof", "repeated") and only in (None, "utf8"):
                 for bad in (b"\xed\xa0\x80", b"\xff", b"\xc0\xaf", b"ab\xe2\x82", b"\xed\xbf\xbf"):
                     data = e0 + spec.enc_record(fi.number, 2, bad)
